@@ -96,6 +96,8 @@ impl ShardedDirtyTracker {
     }
 
     pub fn drain_for_table(&self, table_id: u32) -> Vec<u32> {
+        #[cfg(kahflane_turdb_verif)]
+        crate::verif_hooks::io_event("dirty_drain", "", table_id as u64, 0);
         let mut shard = self.shard_for(table_id).lock();
         match shard.get_mut(&table_id) {
             Some(pages) => {
@@ -108,6 +110,8 @@ impl ShardedDirtyTracker {
     }
 
     pub fn clear_for_table(&self, table_id: u32) {
+        #[cfg(kahflane_turdb_verif)]
+        crate::verif_hooks::io_event("dirty_clear", "", table_id as u64, 0);
         let mut shard = self.shard_for(table_id).lock();
         if let Some(pages) = shard.get_mut(&table_id) {
             pages.clear();
